@@ -536,6 +536,68 @@ func c15RecWorker(arg json.RawMessage) (any, error) {
 	return c15RecRes{Class: "ok", Msg: schemaJSON(s)}, nil
 }
 
+// c15LateRegistration: generation is a function of the type and of the registrations in force
+// when it is called.  A struct refused because a nested field type has no mapping is generated
+// once a schema has been registered for that type — also through types never generated before
+// that contain the same inner structs.  (The types are used by this scenario only, so the
+// registration stays without effect on the rest of the run.)
+type c15AccountID uint64
+type c15Account struct {
+	ID   c15AccountID `json:"id"`
+	Name string       `json:"name"`
+}
+type c15Ledger struct {
+	Owner   c15Account            `json:"owner"`
+	Entries []c15Account          `json:"entries"`
+	ByName  map[string]c15Account `json:"by_name"`
+	N       int64                 `json:"n"`
+}
+type c15Audit struct {
+	Who  *c15Account `json:"who"`
+	Book c15Ledger   `json:"book"`
+}
+
+func c15LateRegistration(r *Run) {
+	r.Count("late-registration")
+	desc := map[string]any{"scenario": "SchemaForType(c15Ledger) x3 (refused: uint64-based field type without mapping); RegisterSchema(c15AccountID, long); SchemaForType(c15Ledger); SchemaForType(c15Audit)"}
+	call := func(v any) (s avro.Schema, err error) {
+		defer func() {
+			if p := recover(); p != nil {
+				err = fmt.Errorf("PANIC: %v", p)
+			}
+		}()
+		return avro.SchemaForType(v)
+	}
+	for i := 0; i < 3; i++ {
+		if _, err := call(c15Ledger{}); err == nil {
+			r.Notes = append(r.Notes, "late-registration: a defined uint64 type has a mapping on this tree; scenario not applicable")
+			return
+		}
+	}
+	if _, err := call(c15Account{}); err == nil {
+		return
+	}
+	avro.RegisterSchema(reflect.TypeOf(c15AccountID(0)), avro.Schema{Type: "long"})
+	acct := `{"type":"record","name":"c15Account","namespace":"main","fields":[{"name":"id","type":"long"},{"name":"name","type":"string"}]}`
+	ledger := `{"type":"record","name":"c15Ledger","namespace":"main","fields":[{"name":"owner","type":` + acct + `},{"name":"entries","type":{"type":"array","items":` + acct + `}},{"name":"by_name","type":{"type":"map","values":` + acct + `}},{"name":"n","type":"long"}]}`
+	audit := `{"type":"record","name":"c15Audit","namespace":"main","fields":[{"name":"who","type":["null",` + acct + `]},{"name":"book","type":` + ledger + `}]}`
+	for _, c := range []struct {
+		name string
+		v    any
+		want string
+	}{{"c15Ledger", c15Ledger{}, ledger}, {"c15Audit", c15Audit{}, audit}, {"c15Account", c15Account{}, acct}, {"c15Ledger again", c15Ledger{}, ledger}} {
+		s, err := call(c.v)
+		if err != nil {
+			r.Fail(-1, "late-registration", fmt.Sprintf("SchemaForType(%s) after a schema was registered for the field type that made it fail: %v", c.name, err), desc)
+			continue
+		}
+		var got, want any
+		if json.Unmarshal([]byte(schemaJSON(s)), &got) != nil || json.Unmarshal([]byte(c.want), &want) != nil || !reflect.DeepEqual(got, want) {
+			r.Fail(-1, "late-registration", fmt.Sprintf("SchemaForType(%s) after the registration is %s, the documented mapping gives %s", c.name, schemaJSON(s), c.want), desc)
+		}
+	}
+}
+
 func runC15(r *Run) {
 	st := &c15State{r: r, reported: map[string]bool{}}
 
@@ -546,6 +608,8 @@ func runC15(r *Run) {
 	for i, item := range c15Corner {
 		st.subject("corner", fmt.Sprintf("corner-%d:%T", i, item), item)
 	}
+
+	c15LateRegistration(r)
 
 	// self-referential and mutually recursive types: an error, in a child
 	// process in case the stack overflow comes back
